@@ -4,7 +4,8 @@
 From Coq Require Import List Arith Bool ZArith QArith Permutation Lia Lqa.
 From TK Require Import QuadTree_Model QuadTree_Spec QuadTree_SpecExec QuadTree_Proof_Base
                        QuadTree_Proof_Insert QuadTree_Proof_Main QuadTree_Proof_Forces
-                       QuadTree_Proof_Fuel QuadTree_Proof_Spec QuadTree_Proof_Exec.
+                       QuadTree_Proof_Fuel QuadTree_Proof_Spec QuadTree_Proof_Exec
+                       QuadTree_Proof_Observers QuadTree_Proof_Order.
 Import ListNotations.
 Local Open Scope Q_scope.
 
@@ -226,3 +227,44 @@ Lemma struct_okb_sound_final : forall data ins t,
 Proof.
   intros data ins t H. split; [apply struct_okb_sound_gen | apply (struct_okb_cum_consistent data ins)]; exact H.
 Qed.
+
+(* ---------- public observers, mean-centred root, order independence of the whole tree ---------- *)
+
+Lemma observers_final : forall fuel data order root ok t,
+  in_root data root order ->
+  fill_order true fuel data order (init root) = Done ok t ->
+  is_correct data t = true /\
+  NoDup (all_indices t) /\ incl (all_indices t) order /\
+  (forall i, In i order -> exists j, In j (all_indices t) /\ coinc data i j) /\
+  (forall i j j', In i order -> In j (all_indices t) -> In j' (all_indices t) ->
+                  coinc data i j -> coinc data i j' -> j = j').
+Proof.
+  intros fuel data order root ok t Hin E.
+  apply (observers_gen true fuel data order root ok t Hin (or_introl eq_refl) E).
+Qed.
+
+Lemma order_independent_tree_final : forall fuel1 fuel2 data order1 order2 root ok1 ok2 t1 t2,
+  Permutation order1 order2 ->
+  in_root data root order1 ->
+  fill_order true fuel1 data order1 (init root) = Done ok1 t1 ->
+  fill_order true fuel2 data order2 (init root) = Done ok2 t2 ->
+  teq data t1 t2.
+Proof.
+  intros fuel1 fuel2 data order1 order2 root ok1 ok2 t1 t2 HP Hin E1 E2.
+  apply (order_independent_tree_gen true fuel1 fuel2 data order1 order2 root ok1 ok2 t1 t2 HP Hin
+           (or_introl eq_refl) E1 E2).
+Qed.
+
+(* the root box of QuadTree(Y, N) contains the N points, so `in_root` holds for the tree tsne.hpp builds *)
+Lemma auto_root_in_root : forall slack data N c,
+  0 <= slack -> (N <= length data)%nat ->
+  auto_root slack data N = Some c -> in_root data c (seq 0 N).
+Proof.
+  intros slack data N c Hs HN E i Hi. apply in_seq in Hi.
+  destruct (nth_error data i) as [p|] eqn:Hp.
+  - exists p. split; [exact Hp|]. apply (auto_root_contains slack data N c Hs E i); [lia | exact Hp].
+  - apply nth_error_None in Hp. lia.
+Qed.
+
+Lemma ex_auto_root : exists c, auto_root (1 # 100000) ex_data 5 = Some c /\ (5 <= length ex_data)%nat.
+Proof. eexists. split; [vm_compute; reflexivity | cbn; lia]. Qed.
